@@ -100,3 +100,22 @@ Example C07_reverse_flag_example :
   snapPolygon exG exP [3]%nat (setRev (exCfg false) true) =
     Ok [(3%nat, [[[(4,44);(20,44);(44,44);(44,4);(4,4)]; [(20,12);(20,20);(12,20);(12,12)]]; [[(20,44);(20,60)]]])].
 Proof. vm_compute. reflexivity. Qed.
+
+From Texel Require Import Snap.ModelInterleaved Snap.ProofsInterleaved.
+
+(** ** Go's randomised map iteration.  In the interleaved model of addPointsAndSnap ([addPointsAndSnapI],
+    Snap/ModelInterleaved.v) every range-over-a-map statement takes its order from [ord], separately for every
+    execution of the statement.  Any two such families of orders give the same result, and fail together. *)
+Theorem C07_level_iteration_order_irrelevant : forall ord1 ord2 g hots cfg P levels,
+  (forall st l, Permutation (ord1 st l) l) -> (forall st l, Permutation (ord2 st l) l) -> NoDup levels ->
+  (forall rs, addPointsAndSnapI ord1 g hots cfg P levels = Ok rs <-> addPointsAndSnapI ord2 g hots cfg P levels = Ok rs) /\
+  is_ok (addPointsAndSnapI ord1 g hots cfg P levels) = is_ok (addPointsAndSnapI ord2 g hots cfg P levels).
+Proof. exact iteration_order_irrelevant. Qed.
+Print Assumptions C07_level_iteration_order_irrelevant.
+
+Example C07_iteration_order_example :
+  addPointsAndSnapI (fun _ l => rev l) exG (hotLevels exG [(1,1);(20,1);(20,20);(10,20);(10,30);(9,20);(1,20);(5,5);(5,10);(10,10);(10,5)])
+                    (exCfg false) exP [3; 1]%nat
+  = addPointsAndSnapI (fun _ l => l) exG (hotLevels exG [(1,1);(20,1);(20,20);(10,20);(10,30);(9,20);(1,20);(5,5);(5,10);(10,10);(10,5)])
+                    (exCfg false) exP [3; 1]%nat.
+Proof. vm_compute. reflexivity. Qed.
